@@ -11,14 +11,18 @@ import numpy as np
 from . import common
 
 PROP = "C16"
-MODULES = ["PdsVerif.Props.C16"]
+MODULES = ["PdsVerif.Props.C16", "PdsVerif.Lemmas.StandardizeView", "PdsVerif.Lemmas.StandardizeBasic"]
 MODEL_MODULES = ["PdsVerif.Model.Standardize", "PdsVerif.Model.StandardizeDrv"]
 REQUIRED = [
     "PdsVerif.C16." + n
     for n in """acc_additive acc_perm run_eq_statsOf acc_tensor_eq_vectors same_data_same_stats
     same_data_same_transform apply_formula apply_tensor_eq_vectors local_mean_zero local_var_one
     local_var_one_real local_mean_zero_real specScale_real dim_mismatch_accumulate dim_mismatch_apply
-    dim_mismatch_apply_tensor result_dtype_f64 not_in_place_pure accumulate_tensor_eq""".split()
+    dim_mismatch_apply_tensor result_dtype_f64 not_in_place_pure accumulate_tensor_eq apply_tensor_formula
+    accumulate_tensor_as_vectors""".split()
+] + [
+    "PdsVerif.Model.Standardize." + n
+    for n in "vectorsAlong_spec vectorsAlong_isSome unview_vectorsAlong unview_spec view_spec ravel_split colSum_get".split()
 ]
 RULE = (
     "a case is (data set of N<=40 feature vectors of dimension F<=6; two independent histories over it = random "
@@ -655,7 +659,7 @@ def compare(ctx, pending, outs):
 
 def run(ctx, driver):
     r = ctx.rng
-    n = ctx.scale(1500, 12000)
+    n = ctx.scale(1500, 40000)
     tmpdir = tempfile.mkdtemp(prefix="pds_c16_", dir="/tmp")
     lines, pending = [], []
     try:
